@@ -224,6 +224,40 @@ def defaultTolerance [Mul K] [Div K] [NatCast K] [LT K] [DecidableLT K] (n : Nat
 end Path
 end PathModel
 
+/-! ### the re-spacing of `ISMPath.step`: where the new images are placed -/
+namespace Path
+section respace
+variable {K : Type} [Add K] [Sub K] [Mul K] [Div K] [NatCast K]
+
+/-- `np.linspace(a, b, n)` in exact arithmetic: `a + i·(b − a)/(n − 1)`, `i = 0 … n−1` (`[a]` for `n = 1`). -/
+def linspace (a b : K) (n : Nat) : List K :=
+  (List.range n).map (fun i => a + ((i : Nat) : K) * ((b - a) / (((n - 1 : Nat)) : K)))
+
+/-- the arc coordinates at which `ISMPath.step` places the new images: between consecutive pinned images
+    (`start`, then the climbing images in increasing order, then the last image) equally spaced from the arc coordinate of
+    the one to that of the other.  `respaceGo α n s climb` lists the targets of the images `s … n−1`; a segment `[s, c]`
+    contributes its first `c − s` targets, the target of `c` itself comes from the next segment (the implementation writes
+    it twice, with the same value). -/
+def respaceGo (α : List K) (n : Nat) : Nat → List Nat → List K
+  | s, [] => linspace (α.getD s (((0 : Nat)) : K)) (α.getD (n - 1) (((0 : Nat)) : K)) (n - s)
+  | s, c :: cs => (linspace (α.getD s (((0 : Nat)) : K)) (α.getD c (((0 : Nat)) : K)) (c + 1 - s)).take (c - s) ++ respaceGo α n c cs
+
+/-- `newα` of `ISMPath.step` for the arc coordinates `α` of the integrated images and the climbing images `climb`
+    (increasing, interior). -/
+def respaceTargets (climb : List Nat) (α : List K) : List K := respaceGo α α.length 0 climb
+
+end respace
+
+section splinerespace
+variable {V K : Type} [Add V] [Sub V] [SMul K V] [Add K] [Sub K] [Mul K] [Div K] [NatCast K]
+/-- the re-spacing of `ISMPath.step`: arc coordinates `α` of the integrated images, targets `respaceTargets climb α`, new
+    images = the interpolant through `(α, rows)` evaluated at the targets. `interp α rows` stands for scipy's
+    `CubicSpline(α, rows)` (outside the model). -/
+def splineRespace (dot : V → V → K) (sqrt : K → K) (interp : List K → List V → K → V) (climb : List Nat) (rows : List V) : List V :=
+  (respaceTargets climb (arccoordOf dot sqrt rows)).map (interp (arccoordOf dot sqrt rows) rows)
+end splinerespace
+end Path
+
 /-! ### `central_difference` on arrays of points of any leading shape
 
 A coordinate array of shape `(…, d)` is the list of its points in row-major order together with the
